@@ -841,7 +841,7 @@ func facetJSON(args []string) error {
 	stats := map[string]int{}
 	for i, env := range envs {
 		r := results[i]
-		fmt.Fprintf(gf, "%s\t%s\t%s\t%s\t%s\n", r.Name, r.Outcome, hexs(firstLine(r.Detail)), hexs(r.Broken), hexs(string(env.specDoc())))
+		fmt.Fprintf(gf, "%s\t%s\t%s\t%s\t%s\n", r.Name, r.Outcome, hexs(firstLine(r.Detail)), hexs(brokenOrFmt(r)), hexs(string(env.specDoc())))
 		if r.Outcome != "ok" || r.Broken != "" {
 			stats["spec_not_driven"]++
 			continue
